@@ -30,7 +30,8 @@ var Check = &ev.Check{
 		_, err := cells.Prepare(s, cells.Options{Slim: s.Tier != "thorough"})
 		return err
 	},
-	Run: run,
+	Run:        run,
+	MemLimitKB: 8 << 20,
 	Budget: func(t string) time.Duration {
 		return map[string]time.Duration{"quick": 4 * time.Minute, "thorough": 25 * time.Minute}[t]
 	},
